@@ -31,92 +31,93 @@ theorem pot_putback (R : Nat) (s : IS) (c : Byte) : pot R (s.putback c) ≤ pot 
     · rw [pot_zero hz2]; omega
     · rw [pot_pos (by omega), pot_pos (by omega)]; omega
 
-/-- the guarded comment loop: with `n ≤ R` iterations left, one step per consumed byte while the stream is alive,
-and at most `n` spins once it has failed -/
-theorem commentLoop_pot (R : Nat) : ∀ (n : Nat) (s : IS) (c : Byte) (len steps : Nat), n ≤ R →
-    (commentLoop n s c len steps).2.2.2.2 + pot R (commentLoop n s c len steps).2.1
-      ≤ steps + pot R s + (if s.m = 0 then n else 0) := by
-  intro n
-  induction n with
-  | zero => intro s c len steps _; simp [commentLoop]
-  | succ n ih =>
-    intro s c len steps hn
+/-- the comment loop (the counter starts again while the stream is good): one step per consumed byte while the stream is
+alive, and at most `left ≤ limit ≤ R` spins once it has failed — paid by the reserve `R` of the potential -/
+theorem commentLoop_pot (R limit : Nat) (hR : limit ≤ R) : ∀ (fuel left : Nat) (s : IS) (c : Byte) (len steps : Nat), left ≤ limit →
+    s.m + (if s.m = 0 then left else limit + 1) + 1 ≤ fuel →
+    ∃ o s' c' len' st', commentLoop limit fuel left s c len steps = .ok (o, s', c', len', st') ∧ s'.m ≤ s.m ∧
+      st' + pot R s' ≤ steps + pot R s + (if s.m = 0 then left else 0) := by
+  intro fuel
+  induction fuel with
+  | zero => intro left s c len steps _ h; omega
+  | succ f ih =>
+    intro left s c len steps hle h
     unfold commentLoop
-    have h1 := get_m s
-    generalize s.get = g at h1 ⊢
-    obtain ⟨s1, o⟩ := g
-    simp only [] at h1
-    have key : ∀ c1 : Byte,
-        (if c1 = chStar then
-          (match (match s1.get with | (s', some c') => (s', c') | (s', none) => (s', c1)) with
-            | (s2, c2) => if c2 = chSlash then (some (), s2, c2, len, steps + 1)
-                          else commentLoop n (s2.putback c2) c2 (len + 1) (steps + 1))
-        else commentLoop n s1 c1 (len + 1) (steps + 1)).2.2.2.2
-        + pot R (if c1 = chStar then
-          (match (match s1.get with | (s', some c') => (s', c') | (s', none) => (s', c1)) with
-            | (s2, c2) => if c2 = chSlash then (some (), s2, c2, len, steps + 1)
-                          else commentLoop n (s2.putback c2) c2 (len + 1) (steps + 1))
-        else commentLoop n s1 c1 (len + 1) (steps + 1)).2.1
-        ≤ steps + pot R s + (if s.m = 0 then n + 1 else 0) := by
-      intro c1
-      -- a continuation on stream `t` (reached from `s` by net consumption ≥ 1, or failed) stays within the bound
-      have cont : ∀ (t : IS) (c' : Byte) (l : Nat), (t.m + 1 ≤ s.m ∨ t.m = 0) →
-          (commentLoop n t c' l (steps + 1)).2.2.2.2 + pot R (commentLoop n t c' l (steps + 1)).2.1
-            ≤ steps + pot R s + (if s.m = 0 then n + 1 else 0) := by
-        intro t c' l ht
-        have := ih t c' l (steps + 1) (by omega)
+    by_cases hl0 : left = 0
+    · simp only [hl0, if_true]
+      exact ⟨_, _, _, _, _, rfl, Nat.le_refl _, by omega⟩
+    · simp only [hl0, if_false]
+      have cont : ∀ (t : IS) (c' : Byte) (l left' : Nat), left' ≤ limit →
+          (t.m + 1 ≤ s.m ∨ (t.m = 0 ∧ (s.m = 0 → left' + 1 ≤ left))) →
+          ∃ o s' c'' len' st', commentLoop limit f left' t c' l (steps + 1) = .ok (o, s', c'', len', st') ∧ s'.m ≤ s.m ∧
+            st' + pot R s' ≤ steps + pot R s + (if s.m = 0 then left else 0) := by
+        intro t c' l left' hl' ht
+        have hf : t.m + (if t.m = 0 then left' else limit + 1) + 1 ≤ f := by
+          by_cases hs : s.m = 0
+          · simp only [hs, if_true] at h
+            rcases ht with ht | ⟨ht0, hd⟩
+            · omega
+            · have := hd hs
+              simp only [ht0, if_true]; omega
+          · simp only [hs, if_false] at h
+            rcases ht with ht | ⟨ht0, _⟩
+            · by_cases ht0 : t.m = 0
+              · simp only [ht0, if_true]; omega
+              · simp only [ht0, if_false]; omega
+            · simp only [ht0, if_true]; omega
+        obtain ⟨o, s', c'', l', st', he, hm, hp⟩ := ih left' t c' l (steps + 1) hl' hf
+        refine ⟨o, s', c'', l', st', he, by rcases ht with ht | ⟨ht0, _⟩ <;> omega, ?_⟩
         by_cases hs : s.m = 0
-        · have ht0 : t.m = 0 := by omega
-          simp [hs, ht0, pot_zero ht0] at this ⊢
-          rw [pot_zero hs]; omega
+        · have ht0 : t.m = 0 := by rcases ht with ht | ⟨ht0, _⟩ <;> omega
+          have hd : left' + 1 ≤ left := by
+            rcases ht with ht | ⟨_, hd⟩
+            · omega
+            · exact hd hs
+          simp only [ht0, if_true, pot_zero ht0] at hp
+          simp only [hs, if_true, pot_zero hs]
+          omega
         · have hs1 : 1 ≤ s.m := by omega
-          simp [hs]
-          rcases ht with ht | ht
-          · have hd := pot_drop (R := R) ht (Nat.le_refl 1)
-            by_cases ht0 : t.m = 0
-            · simp [ht0] at this; have := pot_ge (R := R) hs1; rw [pot_zero ht0] at *; omega
-            · simp [ht0] at this; omega
-          · simp [ht, pot_zero ht] at this
-            have := pot_ge (R := R) hs1
+          have hge := pot_ge (R := R) hs1
+          simp only [hs, if_false]
+          by_cases ht0 : t.m = 0
+          · simp only [ht0, if_true, pot_zero ht0] at hp
             omega
+          · simp only [ht0, if_false] at hp
+            rcases ht with ht | ⟨ht0', _⟩
+            · have hd := pot_drop (R := R) ht (Nat.le_refl 1); omega
+            · exact absurd ht0' ht0
+      have h1 := get_m s
       split
-      · have h2 := get_m s1
-        generalize s1.get = g2 at h2 ⊢
-        obtain ⟨s2, o2⟩ := g2
-        simp only [] at h2
-        have key2 : ∀ c2 : Byte, (if c2 = chSlash then ((some ()), s2, c2, len, steps + 1)
-              else commentLoop n (s2.putback c2) c2 (len + 1) (steps + 1)).2.2.2.2
-            + pot R (if c2 = chSlash then ((some ()), s2, c2, len, steps + 1)
-              else commentLoop n (s2.putback c2) c2 (len + 1) (steps + 1)).2.1
-            ≤ steps + pot R s + (if s.m = 0 then n + 1 else 0) := by
-          intro c2
-          split
-          · simp only []
-            by_cases hs : s.m = 0
-            · have : s2.m = 0 := by omega
-              simp [hs, pot_zero this, pot_zero hs]
-            · have hs1 : 1 ≤ s.m := by omega
-              have hle : s2.m + 1 ≤ s.m ∨ s2.m = 0 := by omega
-              simp [hs]
-              rcases hle with hle | hle
-              · have := pot_drop (R := R) hle (Nat.le_refl 1); omega
-              · rw [pot_zero hle]; have := pot_ge (R := R) hs1; omega
-          · apply cont
-            have hp := putback_m s2 c2
+      · have h2 := get_m (s.get).1
+        split
+        · refine ⟨_, _, _, _, _, rfl, by rcases h1 with h1 | h1 <;> rcases h2 with h2 | h2 <;> omega, ?_⟩
+          by_cases hs : s.m = 0
+          · have : ((s.get).1.get).1.m = 0 := by rcases h1 with h1 | h1 <;> rcases h2 with h2 | h2 <;> omega
+            simp only [hs, if_true, pot_zero this, pot_zero hs]
+            omega
+          · have hs1 : 1 ≤ s.m := by omega
+            have hge := pot_ge (R := R) hs1
+            simp only [hs, if_false]
+            by_cases hz : ((s.get).1.get).1.m = 0
+            · rw [pot_zero hz]; omega
+            · have hd := pot_drop (R := R) (a := ((s.get).1.get).1) (b := s) (d := 1)
+                (by rcases h1 with h1 | h1 <;> rcases h2 with h2 | h2 <;> omega) (Nat.le_refl 1)
+              omega
+        · have hp := putback_m ((s.get).1.get).1 (((s.get).1.get).2.getD chStar)
+          apply cont _ _ _ _ (left_le _ hle)
+          by_cases hz : (((s.get).1.get).1.putback (((s.get).1.get).2.getD chStar)).m = 0
+          · right
+            refine ⟨hz, fun _ => left_dead hl0 (m_zero_not_good hz)⟩
+          · left
             rcases h2 with h2 | h2
             · rcases h1 with h1 | h1
-              · left; omega
-              · right; have : s2.m = 0 := by omega
-                exact putback_m_zero s2 c2 this
-            · right; exact putback_m_zero s2 c2 h2
-        cases o2 with
-        | none => exact key2 c1
-        | some c2 => exact key2 c2
-      · exact cont s1 c1 (len + 1) h1
-    cases o with
-    | none => exact key c
-    | some c1 => exact key c1
-
+              · omega
+              · exfalso; omega
+            · exfalso; exact hz (putback_m_zero _ _ h2)
+      · apply cont _ _ _ _ (left_le _ hle)
+        rcases h1 with h1 | h1
+        · left; exact h1
+        · right; exact ⟨h1, fun _ => left_dead hl0 (m_zero_not_good h1)⟩
 
 /-- what the fallback `SkipInstance` of an overlong comment has to satisfy -/
 def SkipOk (R : Nat) (skip : IS → Out LoopRes) (bound : Nat) : Prop :=
@@ -134,14 +135,11 @@ theorem readCommentWith_comment_pot (R : Nat) (skip : IS → Out LoopRes) (iters
   generalize hg : IS.skipSpaces (chStar :: chSlash :: pre) r0 = sp at hsp
   obtain ⟨p, r⟩ := sp
   have hm2 : (⟨p, r, r.isEmpty, false, sk⟩ : IS).m = r.length + 1 := by simp [IS.m]
-  have hcl := commentLoop_m iters ⟨p, r, r.isEmpty, false, sk⟩ chStar 0 0
-  have hcp := commentLoop_pot R iters ⟨p, r, r.isEmpty, false, sk⟩ chStar 0 0 hR
   have hp2 : pot R (⟨p, r, r.isEmpty, false, sk⟩ : IS) ≤ 4 * (r0.length + 1) + R := by
     have := pot_le (R := R) (⟨p, r, r.isEmpty, false, sk⟩ : IS)
     simp at hsp; omega
-  generalize hc : commentLoop iters ⟨p, r, r.isEmpty, false, sk⟩ chStar 0 0 = cl at hcl hcp
-  obtain ⟨o, s3, c3, len, steps⟩ := cl
-  simp only [] at hcl hcp
+  obtain ⟨o, s3, c3, len, steps, hc, hcl, hcp⟩ := commentLoop_pot R iters hR (r.length + iters + 3) iters
+    ⟨p, r, r.isEmpty, false, sk⟩ chStar 0 0 (Nat.le_refl _) (by rw [hm2]; simp; omega)
   have hne : ¬ (r.length + 1 = 0) := by omega
   simp [hm2] at hcp
   have hs3 : s3.m ≤ r0.length + 1 := by simp at hsp; omega
